@@ -198,31 +198,47 @@ Definition days_from_civil (y m d : Z) : Z :=
 Definition days_in_month (y m : Z) : Z :=
   if (m =? 2) then (if ((y mod 4 =? 0) && negb (y mod 100 =? 0)) || (y mod 400 =? 0) then 29 else 28)
   else if (m =? 4) || (m =? 6) || (m =? 9) || (m =? 11) then 30 else 31.
+(** the zone designator after the time: [Z], or a UTC offset [+hh:mm] / [-hh:mm] in seconds (fix 5dd747f:
+    the offset is applied, the text is the LOCAL time) *)
+Definition parse_zone (s : str) : option Z :=
+  match s with
+  | [90%N] => Some 0
+  | sg :: h1 :: h2 :: 58%N :: m1 :: m2 :: [] =>
+      match two_digits h1 h2, two_digits m1 m2 with
+      | Some hh, Some mm =>
+          if (hh <? 24) && (mm <? 60) then
+            if (sg =? 43)%N then Some (hh * 3600 + mm * 60)
+            else if (sg =? 45)%N then Some (- (hh * 3600 + mm * 60))
+            else None
+          else None
+      | _, _ => None
+      end
+  | _ => None
+  end.
 Definition parse_rfc3339_utc (s : str) : option Z :=
   match s with
   | y1 :: y2 :: y3 :: y4 :: 45%N :: m1 :: m2 :: 45%N :: d1 :: d2 :: 84%N :: h1 :: h2 :: 58%N :: i1 :: i2 :: 58%N :: s1 :: s2 :: rest =>
       match two_digits y1 y2, two_digits y3 y4, two_digits m1 m2, two_digits d1 d2, two_digits h1 h2, two_digits i1 i2, two_digits s1 s2 with
       | Some ya, Some yb, Some mo, Some dd, Some hh, Some mi, Some ss =>
           let y := ya * 100 + yb in
-          let frac : option Z :=
+          let frac : option (Z * Z) :=      (* nanoseconds, offset in seconds *)
             match rest with
-            | [90%N] => Some 0
             | 46%N :: r =>
                 let '(ds, r') := take_digits r in
-                match r' with
-                | [90%N] =>
+                match parse_zone r' with
+                | Some off =>
                     let n := length ds in
                     if (Nat.leb 1 n && Nat.leb n 9)%bool
-                    then Some (Z.of_N (digits_val ds 0) * 10 ^ Z.of_nat (9 - n)) else None
-                | _ => None
+                    then Some (Z.of_N (digits_val ds 0) * 10 ^ Z.of_nat (9 - n), off) else None
+                | None => None
                 end
-            | _ => None
+            | _ => match parse_zone rest with Some off => Some (0, off) | None => None end
             end in
           match frac with
-          | Some fr =>
+          | Some (fr, off) =>
               if (1678 <=? y) && (y <=? 2261) && (1 <=? mo) && (mo <=? 12) && (1 <=? dd) && (dd <=? days_in_month y mo)
                  && (hh <? 24) && (mi <? 60) && (ss <? 60)
-              then Some ((((days_from_civil y mo dd * 24 + hh) * 60 + mi) * 60 + ss) * 1000000000 + fr)
+              then Some (((((days_from_civil y mo dd * 24 + hh) * 60 + mi) * 60 + ss) - off) * 1000000000 + fr)
               else None
           | None => None
           end
@@ -271,13 +287,13 @@ Definition eval_func (f : str) (args : list value) : res value :=
   else if is_name f "toLowerCase" then
     match args with
     | [a] => do s <- to_display a;
-             if is_ascii_str s then Ok (from_string (map ascii_lower s)) else Unm
+             if is_ascii_str s then Ok (VStr (map ascii_lower s)) else Unm
     | _ => Err
     end
   else if is_name f "toUpperCase" then
     match args with
     | [a] => do s <- to_display a;
-             if is_ascii_str s then Ok (from_string (map ascii_upper s)) else Unm
+             if is_ascii_str s then Ok (VStr (map ascii_upper s)) else Unm
     | _ => Err
     end
   else if is_name f "isNull" then
